@@ -20,6 +20,8 @@ def run(chk, repo):
         'C01.b every enzyme has both a site pattern and a range pattern',
         'C01.c literals compared with a variant type are members of the variant-type table; no dead str==list dispatch',
         'C01.d the miscleavage count and the series-recording test both ignore c-terminally pop-collapsed nodes',
+        'C01.g when a node is split / truncated at index X, every variant with end > X is carried by the right part and every variant with start < X by the left part',
+        'C01.h the on-the-fly canonical pool (load_references) is digested with the parameters of the run (resolved exception)',
     ]
     chk.not_decided = ['that every haplotype is enumerated (bubble alignment, codon fitting, cleavage-graph construction, traversal)',
                        'boundary conditions of the variant cursor in create_variant_graph']
@@ -148,3 +150,35 @@ def run(chk, repo):
         chk.ob('C01.f', f"split_node: right half inherits {flag}; left half's {flag} is re-assigned on every path", sn.where, passed and bad is None,
                f"after split_node the left half keeps {flag} of the unsplit node: the flag describes the END of the node "
                "(e.g. a truncated 3' end), so every upstream piece would wrongly carry it and its peptides are never called", key=sn.qual + f'::{flag}', fn=sn.qual)
+
+    # ------------------------------------------------------------------ g
+    from sa.cfg import CFG as _CFG2
+    chk.rule('C01.g', 'R-COVER: node split / truncation distributes every overlapping variant to each part', 10)
+    for q, x in (('svgraph.PVGNode:PVGNode.split_node', 'index'), ('svgraph.PVGNode:PVGNode.truncate_left', 'i'),
+                 ('svgraph.PVGNode:PVGNode.truncate_right', 'i'), ('svgraph.TVGNode:TVGNode.truncate_left', 'i'),
+                 ('svgraph.TVGNode:TVGNode.truncate_right', 'i')):
+        fn = repo.func(q)
+        chk.uses(fn)
+        if x not in fn.params():
+            raise AnalysisError(f"anchor={q}: cut-index parameter '{x}' not found")
+        loops = G.find_for(fn.node, 'self.variants')
+        if len(loops) != 1:
+            raise AnalysisError(f"anchor={q}: `for ... in self.variants` not found")
+        v = unparse(loops[0].target)
+        c = _CFG2(fn.node)
+        for side, formula in (('right', f"{v}.location.end > {x}"), ('left', f"{v}.location.start < {x}")):
+            def is_app(st, side=side):
+                return isinstance(st, ast.Expr) and isinstance(st.value, ast.Call) and unparse(st.value.func) == f"{side}_variants.append"
+            n, nsites, wit = G.iter_covers(c, loops[0], formula, is_app)
+            chk.paths += n
+            # the list must also be the one that ends up in the corresponding part
+            chk.ob('C01.g', f"{fn.name}: every variant with `{formula}` is appended to {side}_variants ({n} iteration paths, {nsites} append sites)",
+                   repo.loc(fn, loops[0]), nsites > 0 and not wit,
+                   f"a variant with `{formula}` can pass the loop without being appended to {side}_variants"
+                   + (f" (path: {'; '.join(wit[0].describe(fn.module.relpath)[:6])})" if wit else '')
+                   + f": the {side} part of the node loses a variant that overlaps it, so peptides of that part are labelled without it or dropped as canonical",
+                   key=f"{q}::cover::{side}", fn=fn.qual)
+
+    # ------------------------------------------------------------------ h
+    from rules.C10 import rule_thread
+    rule_thread(chk, repo, 'C01.h', quals=('cli.common:load_references',))
